@@ -773,6 +773,10 @@ def _serve_socket_threaded(
     def _close_listener_if_idle() -> None:
         nonlocal timer, shutdown_requested
         with state_lock:
+            # A Timer whose wait already elapsed cannot be cancelled; ignore the
+            # callback of one that was cancelled or superseded in the meantime.
+            if timer is not threading.current_thread():
+                return
             timer = None
             if conn_count != 0:
                 return
@@ -830,6 +834,9 @@ def _serve_socket_threaded(
             with state_lock:
                 conn_count += 1
                 _cancel_timer_locked()
+                # The idle timer may have fired between its expiry and this accept;
+                # a client is connected now, so the worker must keep accepting.
+                shutdown_requested = False
             t = threading.Thread(
                 target=_handle,
                 args=(conn,),
